@@ -63,8 +63,11 @@ def function_kind(fi):
         return 'decoder'
     if fi.module.name.endswith('.encode'):
         return 'encoder'
-    raise AnalysisError('recursion through %s: no inductive summary form '
-                        'for functions outside encode/decode' % fi.short)
+    from .model import UnboundedRecursion
+    raise UnboundedRecursion(
+        'recursion through %s: no inductive summary form for functions '
+        'outside encode/decode' % fi.short, fi.short, fi.module.relpath,
+        getattr(fi.node, 'lineno', 0))
 
 
 def summarise_outcomes(kind, outs, prev):
